@@ -166,7 +166,7 @@ def run(p: Program, rep: Report, tier: str) -> None:
             continue
         folded[attr] = v
     # which pattern is used in which decoder state
-    paths, col, it = run_paths(p, ne, dec, inline=lambda fi: False)
+    paths, col, it = run_paths(p, ne, dec)
     rep.cfg_paths += len(paths)
     use: Dict[str, str] = {}
     for pa in paths:
